@@ -1162,7 +1162,7 @@ int __wrap_connect(int fd, const struct sockaddr *sa, socklen_t len)
         if ((cfg.io_menu & ENV_IO_CONNPEND) && dev_enabled(e)) {
             char lb[48];
             mklabel(lb, sizeof lb, "connect-latency");
-            pend = mc_choose(2, MC_IO, lb);
+            pend = mc_choose_mask(2, MC_IO, lb, cfg.connpend_free ? 0 : 0xfffe);
         }
         if (!pend)
             conn_complete(fd);
